@@ -990,7 +990,11 @@ def rule_rect(rep: Report, rid="C12.rect") -> None:
             for m2, c2 in nf.iter_nodes(br.tree):
                 if m2[0] == "setattr" and m2[1] == exc and m2[2] == "location":
                     loc = m2[3]
-            ok = li.get("iter") == rows and not li.get("conds") and any(g in gs for g in differs) and loc == ("item", el, const("location"))
+            it_ = li.get("iter")
+            # all the rows, or all but the first (which is the reference: it cannot differ from itself)
+            over_rows = it_ == rows or it_ == ("slice", rows, const(1), NONE, NONE) \
+                or (isinstance(it_, tuple) and it_ and it_[0] == "call" and it_[1] == "itertools.islice" and it_[2] in ((rows, const(1), NONE), (rows, const(1), NONE, NONE), (rows, const(1), NONE, const(1))))
+            ok = over_rows and not li.get("conds") and any(g in gs for g in differs) and loc == ("item", el, const("location"))
             exc_cls = I.obj(exc).cls.name if isinstance(I.obj(exc), HInst) else None
             detail.append({"iterates": fmt(li.get("iter"), I), "guards": [(fmt(c, I), p2) for c, p2 in gs], "location": fmt(loc, I) if loc else None, "exception": exc_cls})
             if ok and exc_cls == "AstBuilderException":
